@@ -346,7 +346,19 @@ func zzvRcRunPath(in *zzvRcIn, path *zzvRcPath, obs *zzvRcObs) (mm *zzvRcMismatc
 	h := zzvRcNew(in.Addrs, cfg, in.Cap)
 	defer h.close()
 	steps := 0
-	defer func() { obs.addSteps(steps) }()
+	type seenDelay struct {
+		d int
+		w time.Duration
+	}
+	var delays []seenDelay
+	defer func() {
+		obs.addSteps(steps)
+		if mm == nil && err == nil { // delays of runs that were replayed to the end
+			for _, x := range delays {
+				obs.addDelay(x.d, x.w)
+			}
+		}
+	}()
 	spec := path.Init
 	fail := func(kind string, si int, st zzvRcStep, detail string) *zzvRcMismatch {
 		return &zzvRcMismatch{Kind: kind, Step: si, Act: st.A, SpecT: st.T, Real: h.project(), Detail: detail}
@@ -383,7 +395,7 @@ func zzvRcRunPath(in *zzvRcIn, path *zzvRcPath, obs *zzvRcObs) (mm *zzvRcMismatc
 			}
 			e := h.blocked[a.A][want-1]
 			waited := e.at.Sub(h.armedAt[a.A])
-			obs.addDelay(a.D, waited)
+			delays = append(delays, seenDelay{a.D, waited})
 			if waited < h.lower(a.D) {
 				return fail("early-timer", si, st, fmt.Sprintf("timer armed with backoff index %d fired after %v, less than %v", a.D, waited, h.lower(a.D))), nil
 			}
